@@ -224,8 +224,18 @@ def customVals (kind : Nat) (ts : List (Tensor S)) : R (List S) := do
     pure (List.zipWith (· + ·) (mulValues first.vals b.vals) c.vals)
   | _ => throw .modelGap
 
+/-- the operand count each harness-defined operation is defined for (kind 0 sums any number) -/
+def customArity (kind n : Nat) : R Unit :=
+  match kind with
+  | 0 => pure ()
+  | 1 => if n = 2 then pure () else throw .modelGap
+  | 2 => if n = 1 then pure () else throw .modelGap
+  | 3 => if n = 3 then pure () else throw .modelGap
+  | _ => throw .modelGap
+
 /-- harness-defined `Array::op` nodes (always given a backward closure, so always attached) -/
 def hCustom (σ : State S) (kind : Nat) (label : String) (args : List Handle) : R (State S × Handle) := do
+  customArity kind args.length
   let ts := args.map σ.tensorOf
   let first ← getR ts 0
   let vals ← customVals kind ts
